@@ -7,7 +7,7 @@ from ..impl_dtcwt import IMPL
 
 PROP = 'C12'
 MODULE = 'WaveletsVerif.Properties.C12'
-THEOREMS = ['WV.C12.dims5_correct', 'WV.C12.dims6_correct', 'WV.C12.layoutOf_perm', 'WV.C12.fwdJ2_skip_ll', 'WV.C12.loop_skip', 'WV.C12.loop_include', 'WV.C12.loop_prefix']
+THEOREMS = ['WV.C12.dims5_correct', 'WV.C12.dims6_correct', 'WV.C12.layoutOf_perm', 'WV.C12.fwdJ2_skip_ll', 'WV.C12.loop_skip', 'WV.C12.loop_include', 'WV.C12.loop_prefix', 'WV.C10Z.dtcwt_glue_gen', 'WV.C10Z.forward_keeps_no_state_gen']
 OPS = ['DTCWTForward', 'DTCWTInverse']
 
 
@@ -86,9 +86,53 @@ def oracle_prefix(ck, filt, x, J):
     return None
 
 
+def oracle_masks_special(ck, b, s, J, shape, val, skm, inm):
+    """the option identities on an image with ONE non-finite pixel: a skipped level leaves the low-pass and the other levels exactly as
+    they are (same values, same non-finite footprint), a requested scale is the low-pass of the shorter transform"""
+    import torch
+    from pytorch_wavelets import DTCWTForward
+    x = gen.float_tensor(ck.nprng, (1, 1) + tuple(shape)); pos = (shape[0] // 2, shape[1] // 2 + 1)
+    x[(0, 0) + pos] = val
+    xt = torch.tensor(x, dtype=torch.float64)
+    desc = 'DTCWTForward(%s/%s, J=%d) skip_hps=%s include_scale=%s on a %s image with %r at %s' % (b, s, J, bin(skm), bin(inm), tuple(shape), val, pos)
+    replay = {'oracle': 'masks-special', 'b': b, 's': s, 'J': J, 'shape': list(shape), 'val': repr(val), 'skm': skm, 'inm': inm, 'note': 'image drawn from the check PRNG'}
+    sk = [bool((skm >> j) & 1) for j in range(J)]; inc = [bool((inm >> j) & 1) for j in range(J)]
+
+    def eq(a, c):
+        a = a.numpy(); c = c.numpy()
+        if a.shape != c.shape:
+            return False
+        fin = np.isfinite(a) & np.isfinite(c)
+        if not np.array_equal(np.isfinite(a), np.isfinite(c)):
+            return False
+        sc = max(1.0, float(np.max(np.abs(a[fin]))) if fin.any() else 1.0)
+        return bool((np.abs(a[fin] - c[fin]) <= 1e-11 * sc).all())
+    with torch.no_grad():
+        base_l, base_h = DTCWTForward(biort=b, qshift=s, J=J).double()(xt)
+        got_l, got_h = DTCWTForward(biort=b, qshift=s, J=J, skip_hps=sk, include_scale=inc).double()(xt)
+        for j in range(J):
+            if not sk[j] and not eq(got_h[j], base_h[j]):
+                ck.fail(desc + ': band-pass level %d differs from the transform without masks' % (j + 1), replay); return 'diff'
+        if any(inc):
+            for j in range(J):
+                if inc[j]:
+                    sl, _ = DTCWTForward(biort=b, qshift=s, J=j + 1).double()(xt)
+                    if not eq(got_l[j], sl):
+                        ck.fail(desc + ': scale %d is not the low-pass of the %d-level transform (values or non-finite footprint)' % (j + 1, j + 1), replay); return 'diff'
+        elif not eq(got_l, base_l):
+            ck.fail(desc + ': the low-pass differs from the transform without masks (values or non-finite footprint)', replay); return 'diff'
+    ck.oracle_ok(('masks-special', b, s, J, skm, inm, repr(val)), group='masks-special', sample={'what': desc})
+    return None
+
+
 def oracle(ck, extended):
     rng = ck.rng
     q = ck.tier == 'quick'
+    for (b, s) in [('near_sym_a', 'qshift_a'), ('legall', 'qshift_06'), ('near_sym_b', 'qshift_b'), ('antonini', 'qshift_c')][:2 if q else 4]:
+        for val in (float('nan'), float('inf')):
+            J = 2
+            for (skm, inm) in ((1, 0), (1, 3), (2, 1), (3, 2)):
+                rt.guard(ck, oracle_masks_special, ck, b, s, J, (rng.randint(12, 20) * 2, rng.randint(12, 20) * 2), val, skm, inm)
     lay = list(LAYOUTS)
     rng.shuffle(lay)
     for (o, ri) in (lay if not q else lay[:30]):
@@ -136,7 +180,9 @@ def replay(ck, path):
         print('replay file names no failing input: %s' % d.get('broken_obligations'))
         return 1
     filt = [arr_from(a) for a in f['filt']]
-    if f['oracle'] == 'layout':
+    if f['oracle'] == 'masks-special':
+        oracle_masks_special(ck, f['b'], f['s'], f['J'], tuple(f['shape']), float(f['val']), f['skm'], f['inm'])
+    elif f['oracle'] == 'layout':
         oracle_layout(ck, filt, [arr_from(a) for a in f['gfilt']], arr_from(f['x']), f['J'], f['o'], f['ri'])
     elif f['oracle'] == 'masks':
         oracle_masks(ck, filt, arr_from(f['x']), f['J'], f['skm'], f['inm'])
